@@ -527,16 +527,28 @@ fn pw_params<V: Backend>(a: &Value) -> (bool, String) {
     if !whole.is_empty() {
         blob = whole;
     }
-    let r = catch_unwind(AssertUnwindSafe(|| {
-        let _ = V::get_params(&blob);
-        let mut b2 = blob.clone();
-        let _ = V::pw_unwrap_key(".local-pw.", b"pw", &mut b2);
-    }));
-    if r.is_err() {
-        (true, format!("CONDITION panic\npw_unwrap_key panicked on a blob with parameter block {:02x?}", pb))
-    } else {
-        (false, "no panic".into())
+    // The engine (CBMC) reads the two 32-bit big-endian fields of the zerocopy parameter struct
+    // byte-swapped when the struct is obtained by a pointer cast (DESIGN.md 7.2), so the solver's blob
+    // is offered as it is and with those two fields (bytes 24..28 and 28..32) reversed: what counts is
+    // whether the REAL code panics on a concrete blob.
+    let mut variants = vec![blob.clone()];
+    if blob.len() >= 32 {
+        let mut b = blob.clone();
+        b[24..28].reverse();
+        b[28..32].reverse();
+        variants.push(b);
     }
+    for (i, blob) in variants.iter().enumerate() {
+        let r = catch_unwind(AssertUnwindSafe(|| {
+            let _ = V::get_params(blob);
+            let mut b2 = blob.clone();
+            let _ = V::pw_unwrap_key(".local-pw.", b"pw", &mut b2);
+        }));
+        if r.is_err() {
+            return (true, format!("CONDITION panic\npw_unwrap_key panicked on the blob {:02x?} (parameter block {:02x?}; variant {})", blob, &blob[16.min(blob.len())..32.min(blob.len())], i));
+        }
+    }
+    (false, "no panic".into())
 }
 fn sk_inner<V: HasKey<PkeSecret>>(k: &Key<V, PkeSecret>) -> <V as HasKey<PkeSecret>>::Key {
     <V as HasKey<PkeSecret>>::decode(k.expose_key().as_raw_bytes()).unwrap()
